@@ -2,4 +2,4 @@ SPECIFICATION GSpec
 CONSTANTS Devs = {}
           Cases <- GSel
           Family = "GThorough"
-INVARIANTS Emit VisitedExact DepthShortest FetchedExact LocalExact ProvidedExact ResultRight HandlerCallsRight
+INVARIANTS Emit VisitedExact DepthShortest FetchedExact LocalExact ProvidedExact ResultRight HandlerCallsRight HandlerOwnFailure
